@@ -71,6 +71,16 @@ def r10_1(ctx):
               "found %d writes of generated test text" % len(gen))
     # front-matter delimiters are re-emitted around the config
     lits = [peel(tree).a.as_str() for bb, t, tree in pushes if peel(tree).kind == "const"]
+    # kept lines are terminated one by one: assure_newline on a *joined* text adds nothing when the last kept line is empty - that blank line is lost
+    joined = []
+    for bb, t, tree in pushes:
+        for n in tree.walk():
+            if n.kind == "call" and method_name(n.a).endswith("assure_newline") and any(
+                    x.kind == "call" and method_name(x.a).split("::")[-1] in ("join_newline", "join", "concat") for x in n.walk()):
+                joined.append(f.loc(bb))
+    ctx.check(not joined, "kept-lines-terminated-individually", joined[0] if joined else f.where(), "assure_newline is applied to single kept lines, never to a joined text",
+              "assure_newline is applied to the joined lines: when the last kept line is empty the joined text already ends in a line feed and that blank line is not "
+              "written - a front-matter ending in blank lines loses one of them on every update")
     lead = [x for x in lits if x and x.startswith("\n")]
     ctx.check(lits.count("---\n") == 2 and not lead, "front-matter-delimiters", f.where(),
               "the front-matter is re-emitted between two `---` lines; no literal write begins with a line feed (lines are written one by one)",
